@@ -21,7 +21,7 @@ pub struct GenParams {
     pub salt: u64,
 }
 
-pub const PAYOFF_FAMILIES: usize = 8;
+pub const PAYOFF_FAMILIES: usize = 10;
 pub const WEIGHT_FAMILIES: usize = 5;
 
 impl GenParams {
@@ -81,6 +81,10 @@ impl Builder<'_> {
             }
             5 => 0.75,
             6 => r.range(0, 2) as f64 - 1.0,
+            // very small / very large units: every documented statement is relative to the payoff
+            // range, so an absolute epsilon anywhere in the arithmetic shows up here
+            8 => (r.range(0, 16) as f64 - 8.0) * 1e-30,
+            9 => (r.unit() * 2.0 - 1.0) * 1e30,
             _ => {
                 // dominated actions: a player's action 0 is worth a bonus to them
                 let mut v = r.unit() - 0.5;
